@@ -365,12 +365,17 @@ def one_case(ctx, mon, nodes, flat):
 
 
 def run(ctx):
+    from .. import wtests
+    wtests.run(ctx)
     mon = install(ctx)
     rng = ctx.rng
     n = ctx.budget(1_800, 30_000)
     for _ in range(n):
         if not ctx.alive():
             break
+        if rng.random() < 0.05:
+            from .. import noise
+            noise.burst(ctx, rng, exclude=('simplify', 'bezier'))
         if rng.random() < 0.02:
             from ..gen_stepper import failed_call
             from plotink import plot_utils as _pu
@@ -471,6 +476,7 @@ def run(ctx):
     ctx.need("history: after a failed call (malformed arguments)", 10)
     ctx.need("monitor:pieces matched against the dyadic tree", 30_000)
     ctx.need("monitor:pieces checked for flatness", 30_000)
+    ctx.need("history: after calls to other library functions", 40)
     contracts.uninstall_all()
 
 
